@@ -27,8 +27,35 @@ INVERSE_PAIRS = [("scale(-1,1)", ' transform="scale(-1,1)"'), ("translate(20 0)"
                  ("matrix(1 0 0 -1 0 60)", ' transform="matrix(1 0 0 -1 0 60)"')]
 
 
+def special_viewport(rng):
+    """nested svg viewports: every alignment with a viewBox whose origin is not 0, omitted width / height (100% of the
+    parent viewport, which is the root's viewBox extent even when the root also has width / height in other units)"""
+    import docgen
+    vb = "%d %d %d %d" % (rng.choice([7, 15, -10, 30]), rng.choice([4, 12, -6, 25]), rng.choice([40, 80, 120]), rng.choice([30, 60, 100]))
+    par = rng.choice(["xMinYMin", "xMidYMin", "xMaxYMin", "xMinYMid", "xMidYMid", "xMaxYMid", "xMinYMax", "xMidYMax", "xMaxYMax"]) + rng.choice(["", " meet", " slice"])
+    size = rng.choice([' width="50" height="40"', ' width="60"', ' height="45"', ""])
+    root = rng.choice(['viewBox="0 0 100 100"', 'viewBox="0 0 100 100" width="400" height="400"', 'viewBox="0 0 120 90" width="12cm" height="9cm"'])
+    kids = ('<rect x="%d" y="%d" width="30" height="20" fill="red"/><circle cx="%d" cy="%d" r="9" fill="blue"/>'
+            % (rng.randint(5, 40), rng.randint(5, 30), rng.randint(10, 60), rng.randint(10, 50)))
+    return ('<svg xmlns="http://www.w3.org/2000/svg" %s><rect width="10" height="10"/><svg x="%d" y="%d"%s viewBox="%s" preserveAspectRatio="%s" overflow="%s">%s</svg></svg>'
+            % (root, rng.randint(0, 30), rng.randint(0, 30), size, vb, par, rng.choice(["visible", "hidden"]), kids))
+
+
+def special_tiny(rng):
+    """very small composed scales around very large coordinates: nothing may vanish"""
+    k = rng.choice([1000, 20000, 1000000])
+    return ('<svg xmlns="http://www.w3.org/2000/svg" viewBox="0 0 100 100"><g transform="scale(%s)"><g transform="scale(%s)">'
+            '<rect x="%d" y="%d" width="%d" height="%d" fill="red"/></g></g><rect width="5" height="5"/></svg>'
+            % (repr(1.0 / 50), repr(50.0 / k), 10 * k, 20 * k, 40 * k, 30 * k))
+
+
 def special(rng):
     """instances whose transform undoes the target's own: the product is the identity and nothing may be left behind"""
+    r = rng.random()
+    if r < 0.10:
+        return special_viewport(rng)
+    if r < 0.13:
+        return special_tiny(rng)
     if rng.random() > 0.12:
         return None
     import docgen
